@@ -58,6 +58,28 @@ def handle (op : String) (j : Json) : Except String Json := do
       | some vs => if vs.all inInt64 then intList vs else Json.null
       | none => Json.null
     pure (reply m (some s))
+  | "lazy_ints" =>
+    -- the integer columns a program on a lazily read table looked at: each read names the column and the rows selected
+    -- at that moment (positions in the file); the model lays the table out as text, compacts the selection
+    -- (`_make_contigous`) and reads the column from the compacted text (digit matrix / ragged route by the SELECTED rows)
+    let ls ← (← j.getObjVal? "lines").getArr?
+    let lines ← ls.toList.mapM (fun b => do
+      let a ← b.getArr?
+      let l ← a.toList.mapM (·.getStr?)
+      pure (l.map toB))
+    let rs ← (← j.getObjVal? "reads").getArr?
+    let reads ← rs.toList.mapM (fun r => do
+      let col ← getNat r "col"
+      let sel ← getNatList r "sel"
+      pure (col, sel))
+    let m := reads.map (fun (col, sel) => match lazyColumnInts lines col sel with
+      | some vs => intList vs
+      | none => errEnc)
+    let s := reads.map (fun (col, sel) =>
+      match Base.omap specParse (sel.map (fun i => (lines.getD i []).getD col [])) with
+      | some vs => if vs.all inInt64 then intList vs else Json.null
+      | none => Json.null)
+    pure (reply (Json.arr m.toArray) (some (Json.arr s.toArray)))
   | "parse_missing" =>
     let rows := (← getStrList j "rows").map toB
     let miss ← getInt j "missing"
